@@ -6,6 +6,7 @@
 ** budget and a wall-clock watchdog for termination.
 */
 #include "vh.h"
+#include "foreign.h"
 #include <sys/mman.h>
 #include <sys/wait.h>
 
@@ -89,6 +90,16 @@ static void add_handmade (void)
 			memcpy (p, "data", 4) ; p += 4 ; le32w (&p, frames * 2) ; for (i = 0 ; i < frames ; i++) le16w (&p, (unsigned) (i * 100) & 0xffff) ;
 			{ unsigned char *q = szp ; le32w (&q, (uint32_t) (p - b - 8)) ; }
 			corpus [ncorp].d = b ; corpus [ncorp].len = (long) (p - b) ; corpus [ncorp].format = SF_FORMAT_WAV | SF_FORMAT_PCM_16 ; corpus [ncorp].ch = 1 ; corpus [ncorp].meta = 2 ; ncorp++ ;
+			}
+		}
+	/* files as other programs write them (harness/foreign.h): starting points for every mutator, the systematic chunk mutations included */
+	{	int fi ;
+		for (fi = 0 ; fi < foreign_count () ; fi++)
+		{	unsigned char *b = NULL ; long n = 0 ; if (ncorp >= 1398) return ;
+			foreign_make (fi, &b, &n) ; if (n < 12) { free (b) ; continue ; }
+			corpus [ncorp].d = b ; corpus [ncorp].len = n ; corpus [ncorp].ch = 1 ; corpus [ncorp].meta = 2 ;
+			corpus [ncorp].format = (!memcmp (b, "FORM", 4) ? SF_FORMAT_AIFF : !memcmp (b, "caff", 4) ? SF_FORMAT_CAF : (!memcmp (b, ".snd", 4) || !memcmp (b, "dns.", 4)) ? SF_FORMAT_AU : SF_FORMAT_WAV) | SF_FORMAT_PCM_16 ;		/* names the keys only */
+			ncorp++ ; vh_stat ("foreign_corpus_files", 1) ;
 			}
 		}
 	/* one to four ID3v2 tags (each larger than the header cache) in front of a small WAV file */
